@@ -82,6 +82,7 @@ def grep_forbidden():
 
 
 def theorems_of(prop):
+    """theorem names of RbdlProofs/Props/<prop>.lean"""
     p = os.path.join(LEAN, "RbdlProofs", "Props", prop + ".lean")
     if not os.path.exists(p):
         return [], None
@@ -102,16 +103,21 @@ def theorems_of(prop):
     return names, p
 
 
-def audit(prop, thorough=False):
+def audit(prop, thorough=False, extra_props=()):
     """returns dict: obligations, discharged, axioms per theorem, problems"""
     res = {"obligations": 0, "discharged": 0, "axioms": {}, "problems": [], "theorems": []}
     names, path = theorems_of(prop)
+    mods = [prop]
+    for extra in extra_props:
+        n2, _ = theorems_of(extra)
+        names = names + n2
+        mods.append(extra)
     res["theorems"] = names
     res["obligations"] = len(names)
     if not names:
         res["problems"].append("no property theorems found for " + prop)
         return res
-    ok, log = lean_build(["RbdlProofs.Props." + prop])
+    ok, log = lean_build(["RbdlProofs.Props." + x for x in mods])
     if not ok:
         errs = [l for l in log.splitlines() if "error" in l][:20]
         res["problems"].append("lake build RbdlProofs.Props.%s failed: %s" % (prop, " | ".join(errs)))
@@ -124,7 +130,8 @@ def audit(prop, thorough=False):
     os.makedirs(tmpd, exist_ok=True)
     tmp = os.path.join(tmpd, "Audit_%s_%d.lean" % (prop, os.getpid()))
     with open(tmp, "w") as f:
-        f.write("import RbdlProofs.Props.%s\n" % prop)
+        for x in mods:
+            f.write("import RbdlProofs.Props.%s\n" % x)
         for n in names:
             f.write("#print axioms %s\n" % n)
     r = run(["lake", "env", "lean", tmp], cwd=LEAN, timeout=1200)
@@ -420,7 +427,7 @@ def main(argv):
     gen_info = props.regenerate(prop)
 
     # 2. proofs
-    aud = audit(prop, thorough)
+    aud = audit(prop, thorough, tuple(P.get("extra_props", ())))
     if gen_info.get("problems"):
         aud["problems"] += gen_info["problems"]
 
